@@ -32,7 +32,7 @@ FUNCTIONS = ['codegen_hodge', 'codegen_unhodge', 'codegen_polarity', 'codegen_un
              'MultiVector.dual', 'MultiVector.undual', 'codegen_inv (pss.inv())', 'generated hodge_/unhodge_/polarity_/unpolarity_/rp_ functions']
 ASSUMPTIONS = ['coefficients are reals; patterns/configurations enumerated',
                'the Hodge dual is defined relative to the algebra\'s own pseudoscalar blade (custom orientations by definition)']
-BOUNDS = {'quick': 'all (p,q,r) d<=4 (d=4: grade unions/single blades/random sparse), 11 signatures of d=5,6 (sparse), custom bases (named + 12 sampled), wrapper algebras with a second pass; Engine B W=10',
+BOUNDS = {'quick': 'all (p,q,r) d<=4 (d=4: grade unions/single blades/random sparse), 11 signatures of d=5,6 (sparse), custom bases (named + 12 sampled), wrapper algebras with a second pass; Engine B W=10; twin algebras coexisting in one process',
           'thorough': 'all (p,q,r) d<=6 (sparse above 4), 100 sampled custom bases; Engine B W=14'}
 OUTSIDE = ['d > 6', "dual(kind='auto') for r > 1 (property silent)", 'floating-point rounding']
 OPTS = {'rlimit': 100_000_000, 'canary_every': 15}
